@@ -17,7 +17,8 @@ Decided here (equality of printed numbers / archived sets with the library's is 
           reviewed exceptions: terminal colour writes, SystemTime::elapsed, SymbolicContext::new(bn) (fails only
           beyond 65535 symbolic variables);
   C17-R5  the numbers printed by summarize_results derive from its `results` argument, which at each call site is the
-          value just returned by eval_node for that formula; the archived set is the same value."""
+          value just returned by eval_node for that formula; the archived set is the same value: for every formula and every
+          print option, result i is stored under `formula-<i>` in the map that the archive writer receives (shared with C16-R3)."""
 import os
 import re
 
@@ -226,7 +227,7 @@ def run(prog, rep):
         kinds = sorted(("colors" if "colors(" in pt(x.args[0]) else "vertices" if "vertices(" in pt(x.args[0]) else "all") for x in card)
         rep.check(good and kinds == ["all", "colors", "vertices"], "C17-R5", "summarize_results/numbers", f"{sr.file}:{sr.line}",
                   "prints |results|, |results.colors()|, |results.vertices()|", f"printed cardinalities: {kinds}")
-        calls = [x for x in s.sites if x.kind == "call" and x.is_call_to("summarize_results", "print_results_full")]
+        calls = [x for x in s.all_sites() if x.kind == "call" and x.is_call_to("summarize_results", "print_results_full")]
         ok = bool(calls)
         for c in calls:
             res = c.args[1] if c.is_call_to("summarize_results") else c.args[2]
@@ -243,7 +244,15 @@ def run(prog, rep):
             good = len(inner) == 1 and inner[0].args[1] == ("param", ppn[2]) and len(mat) == 1 and terms.mentions_param(mat[0].args[0], ppn[2]) and "vertices(" in pt(mat[0].args[0])
             rep.check(good, "C17-R5", "print_results_full/states", f"{pf.file}:{pf.line}", "exhaustive mode lists results.vertices()",
                       "exhaustive mode does not list the vertices of the evaluated set")
-    rep.floor("C17-R5", 3)
+    # the archived sets: result i goes into the result map under `formula-<i>` for every formula and every print option, and the
+    # map is what the archive writer receives (shared with C16-R3)
+    sub = type(rep)("C17a")
+    c16.run(prog, sub)
+    for i in sub.instances:
+        if i.rule == "C16-R3":
+            k_ = i.key.split(":", 1)[1] if ":" in i.key else i.key
+            (rep.ok if i.verdict == "ok" else rep.violation if i.verdict == "violation" else rep.unresolved)("C17-R5", "archived/" + k_, i.where, i.detail)
+    rep.floor("C17-R5", 5)
 
 
 def check_options(prog, rep, eng):
@@ -311,6 +320,8 @@ def check_error_discipline(prog, rep, eng):
     for f in fns:
         s = eng.summary(f)
         rep.functions.add(f.qual)
+        # one instance per analysed function (so that replacing unwraps by matches never makes the rule vacuous)
+        rep.ok("C17-R4", f"{f.name}/analysed", f"{f.file}:{f.line}", "every unwrap / expect of the function is examined (those that can fail are reported separately)")
         for x in s.sites:
             if x.kind != "mcall" or x.name not in ("unwrap", "expect"):
                 continue
